@@ -2,7 +2,7 @@
 under the deterministic fork/join shim for every admissible order and under real rayon pools,
 every run validated by TLC against spec/TraceSchedule.tla; the run-time staging model
 (spec/Schedule.tla) is model-checked by TLC."""
-import collections, json, os, shutil, time, subprocess
+import re, sys, collections, json, os, shutil, time, subprocess
 from vlib import *
 
 def bins_for(tier):
@@ -65,7 +65,7 @@ def run_sched(tier, seed, replay=None):
         rp = json.load(open(replay))
         ensure_sources(rp.get("tier", tier))
         build_harness([rp["bin"]])
-        jobs.append((rp["bin"], [rp["case"], str(rp["preset"])]))
+        jobs.append((rp["bin"], [rp["case"]] + ([str(rp["preset"])] if rp.get("preset") is not None else [])))
     else:
         build_harness(bins_for(tier))
         jobs = [(b, []) for b in bins_for(tier)]
@@ -80,6 +80,7 @@ def run_sched(tier, seed, replay=None):
         except subprocess.TimeoutExpired:
             rc, hang = -999, True
         crashed = rc != 0
+        last = None
         if crashed:
             # keep complete runs only; the incomplete last run is reported by the wrapper
             keep, buf = [], []
@@ -90,7 +91,6 @@ def run_sched(tier, seed, replay=None):
                 if '"ev":"end"' in l[:12]:
                     keep += buf
                     buf = []
-            last = None
             for l in buf:
                 if '"ev":"sched"' in l:
                     last = json.loads(l)
@@ -108,9 +108,35 @@ def run_sched(tier, seed, replay=None):
             fails.append({"prop": prop, "name": nm, "line": line, "bin": b, "hdr": h, "trace": out})
         if crashed:
             which = "did not terminate (watchdog 600 s)" if hang else "process crashed rc=%s" % rc
-            for prop in (("C12",) if hang else ("C07", "C08", "C12")):
+            # which case was it?  The bin buffers its output, so the header of the run in progress is
+            # usually lost: run the cases of the bin one by one until one of them fails the same way
+            hdr = {"case": (last or {}).get("case", "?"), "names": (last or {}).get("names", []),
+                   "preset": (last or {}).get("preset"), "mode": (last or {}).get("mode"), "choices": (last or {}).get("choices")}
+            uses_res = any(v != "none" for t in (last or {}).get("tasks", []) for v in t.get("res", {}).values())
+            if last is None and not hang:
+                src = open(os.path.join(HARNESS, "src", "bin", b + ".rs")).read()
+                sys.path.insert(0, os.path.join(HARNESS, "tools"))
+                import gen_sched
+                ks = gen_sched.kinds()
+                for m in re.finditer(r'sched_case!\(out, "(\w+)", presets, pools, \d+; ([^)]*\)(?:, [SP]\(K\d+\))*)\);', src):
+                    case, items = m.group(1), re.findall(r'K(\d+)', m.group(2))
+                    try:
+                        q = sh([bin_path(b), out + ".probe", case], timeout=300, check=False)
+                        bad = q.returncode != 0
+                    except subprocess.TimeoutExpired:
+                        bad = True
+                    if bad:
+                        hdr = {"case": case, "names": ["K%s" % i for i in items], "preset": None, "mode": None, "choices": None}
+                        uses_res = any(ks[int(i)]["res"] for i in items)
+                        break
+                try:
+                    os.remove(out + ".probe")
+                except OSError:
+                    pass
+            props = ("C12",) if hang else (("C07", "C08", "C12") + (("C15",) if uses_res else ()))
+            for prop in props:
                 fails.append({"prop": prop, "name": "run_schedule " + which, "line": 0, "bin": b,
-                              "hdr": {"case": "?", "names": []}, "trace": out, "crash": True})
+                              "hdr": hdr, "trace": out, "crash": True})
         return {"bin": b, "trace": out, "fails": fails, "stats": st, "sample": sample}
 
     results = parallel(one, jobs)
